@@ -35,6 +35,11 @@ Base(type, doms) == [type |-> type, doms |-> [j \in 1..Len(doms) |-> Dom(doms[j]
 Cases ==
   {Base(t, <<a>>) : t \in {"Abs"}, a \in NumDoms \cup AsymDoms}
   \cup {Base("Not", <<a>>) : a \in BinDoms}
+  \* functions decided on measured samples (Bounds!Transc); k = index into the parameter menu of checks/c06.py
+  \cup {Base(t, <<a>>) : t \in {"Exp", "Log", "Sin", "Cos", "Tan", "Asin", "Acos", "Atan", "Sinh", "Cosh", "Tanh",
+                                 "Asinh", "Acosh", "Atanh"}, a \in NumDoms \cup AsymDoms}
+  \cup {[Base(t, <<a>>) EXCEPT !.k = k] : t \in {"ExpA", "LogA"}, a \in NumDoms \cup AsymDoms, k \in 0..2}
+  \cup {[Base("PowR", <<a>>) EXCEPT !.k = k] : a \in NumDoms \cup AsymDoms, k \in 0..3}
   \cup {[Base("Pow", <<a>>) EXCEPT !.k = e] : a \in NumDoms \cup AsymDoms, e \in {-2, -1, 0, 1, 2, 3, 4}}
   \cup {Base(t, <<a, b>>) : t \in {"Max", "Min", "Div"}, a \in AsymDoms, b \in {"im31", "cm21", "c02", "neg"}}
   \cup {[Base("QuadFunc", <<a, b>>) EXCEPT !.lin = <<0, 0>>, !.quad = q] : a \in AsymDoms, b \in AsymDoms \cup {"c02", "neg"},
